@@ -1406,12 +1406,71 @@ class _Records:
             return [ast.Tuple(elts=[a.elts[i] for a in it.args], ctx=ast.Load()) for i in range(n)]
         return None
 
+    def _call_arity(self, e: ast.AST) -> Optional[int]:
+        """number of components of the record / tuple a private helper call returns"""
+        if not isinstance(e, ast.Call) or any(isinstance(a, ast.Starred) for a in e.args):
+            return None
+        try:
+            rt = self.rec_type(e)
+        except Exception:
+            rt = None
+        if rt is not None:
+            return len(record_fields(self.repo, rt))
+        comps = self.extractors.get(callee_name(e))
+        if comps and None not in comps and all(isinstance(k, int) for k in comps):
+            return max(comps) + 1
+        try:
+            return _tuple_arity(self.repo, self.ctx, e)
+        except Exception:
+            return None
+
+    def _zip_with_calls(self, it: ast.AST, pre: List[ast.stmt], at: ast.stmt) -> Optional[List[ast.AST]]:
+        """zip(<field tuple>, self._helper(x)) where the helper returns a record / tuple of known size: the call is evaluated once
+        (as zip does), its components are read by position"""
+        if not (isinstance(it, ast.Call) and isinstance(it.func, ast.Name) and it.func.id == "zip" and it.args and not it.keywords):
+            return None
+        if not any(isinstance(a, ast.Tuple) and getattr(a, "_sra", False) for a in it.args):
+            return None
+        cols: List[List[ast.AST]] = []
+        mine: List[ast.stmt] = []
+        for a in it.args:
+            if isinstance(a, ast.Tuple) and getattr(a, "_sra", False):
+                cols.append(list(a.elts))
+                continue
+            n = self._call_arity(a)
+            if n is None:
+                return None
+            tmp = f"__sra_z{next(_nf_counter)}"
+            mine.append(_located(ast.Assign(targets=[ast.Name(id=tmp, ctx=ast.Store())], value=a, lineno=at.lineno), at))
+            cols.append([ast.Subscript(value=ast.Name(id=tmp, ctx=ast.Load()), slice=ast.Constant(value=i), ctx=ast.Load()) for i in range(n)])
+        pre.extend(mine)
+        n = min(len(c_) for c_ in cols)
+        return [ast.Tuple(elts=[c_[i] for c_ in cols], ctx=ast.Load()) for i in range(n)]
+
     def _unroll(self, st: ast.stmt) -> List[ast.stmt]:
         if not isinstance(st, ast.For) or st.orelse:
             return [st]
+        if any(isinstance(x, (ast.Break, ast.Continue)) for s in st.body for x in _walk_scope(s)):
+            return [st]
+        zpre: List[ast.stmt] = []
         rows = self._rows(st.iter)
         if rows is None:
+            rows = self._zip_with_calls(st.iter, zpre, st)
+        if rows is None:
             return [st]
+        if zpre:
+            tn = C.target_names(st.target)
+            stored_ = {x.id for s in st.body for x in ast.walk(s) if isinstance(x, ast.Name) and isinstance(x.ctx, (ast.Store, ast.Del))}
+            out_: List[ast.stmt] = list(zpre)
+            for row in rows:
+                env_: Dict[str, ast.AST] = {}
+                body_ = copy.deepcopy(st.body)
+                if not (tn & stored_) and Verdict.bind(st.target, row, env_):
+                    body_ = [_Subst(env_).visit(s) for s in body_]      # names and `tmp[i]` reads: pure
+                else:
+                    out_.append(_located(ast.Assign(targets=[copy.deepcopy(st.target)], value=copy.deepcopy(row), lineno=st.lineno), st))
+                out_.extend(body_)
+            return out_
         if any(isinstance(x, (ast.Break, ast.Continue)) for s in st.body for x in _walk_scope(s)):
             return [st]
         tnames = C.target_names(st.target)
@@ -2214,6 +2273,7 @@ class Verdict:
         self._role_cache: Dict[int, Optional[str]] = {}
         self.pairs_seen: Set[str] = set()
         self.pair_operands: List[Tuple[ast.AST, ast.AST, str, str]] = []        # (operand, operand, role, role) of every set test recognised
+        self.flag_param: Optional[str] = None       # the parameter of the step that carries should_validate_concurrency_constraint
         self.extra = None           # optional further atoms: expr -> (name, polarity) | None (not cached)
         self.member_walks: List[Tuple[int, object, Set[int]]] = []      # (CFG node of a `for` over the members of the step, its nop-test matcher, the nodes of its body)
 
@@ -2250,8 +2310,67 @@ class Verdict:
             whos = {self.who_of(pre) for pre, _k in ks} - {None}
             who = "next" if whos == {"next"} else ("acc" if whos == {"acc"} else ("mixed" if whos else "unknown"))
             out = who + "." + "/".join(sorted({k for _p, k in ks}))
+        else:
+            out = self.params_role(e)
         self._role_cache[id(e)] = out
         return out
+
+    # -- the objects the actions work on (shared-object concurrency constraint)
+    PARAM_PASS = ("arg0:set", "arg0:frozenset", "arg0:list", "arg0:tuple", "arg0:sorted", "call:copy")
+
+    def params_role(self, e: ast.AST) -> Optional[str]:
+        """'next.params': ALL the parameters of the head of the remaining plan; 'acc.params': the parameters of ALL the members of the
+        slot list (JointActionCall(<slot list>).joint_parameters, or collected member by member).  A slice / a single position of
+        either is neither."""
+        try:
+            tr = short(self.p.trace(e))
+        except KeyError:
+            return None
+        # not elements: the container objects themselves, and the positions (keys) of stores into a list
+        tr = {x for x in tr if not (x[0].startswith("fresh:") and all(s in self.PARAM_PASS or s in CONTAINER_PASS for s in x[1:]))
+              and not any(s.startswith("in:setkey@") for s in x)}
+        if not tr:
+            return None
+
+        def content(rest: tuple) -> bool:
+            return all(s in self.PARAM_PASS or s == "elem" or (s.startswith("in:") and not s[3:].isdigit()) or s in CONTAINER_PASS for s in rest)
+
+        def nxt(x: tuple) -> bool:
+            return len(x) >= 4 and x[0] == self.plan and x[1] == "item:0" and x[2] in ("unpack:0", "item:0") and x[3] == "attr:parameters" and content(x[4:])
+
+        def acc(x: tuple) -> Optional[bool]:
+            """True: parameters of the members; None: a by-product that says nothing (the JointActionCall object itself)"""
+            if any(s.startswith("slice:") for s in x):
+                return False        # some of the members / some of the parameters only
+            if "attr:parameters" in x and any(s.startswith("item") for s in x[x.index("attr:parameters") + 1:]):
+                return False        # one position of the parameters
+            if "attr:joint_parameters" in x:
+                i = x.index("attr:joint_parameters")
+                if not content(x[i + 1:]) or i == 0:
+                    return False
+                if x[i - 1] == "fresh:JointActionCall":
+                    return None
+                return x[i - 1] in ("arg0:JointActionCall", "kw:actions:JointActionCall")
+            if "attr:parameters" in x:
+                i = x.index("attr:parameters")
+                return self.who_of(x[:i]) == "acc" and x[i - 1] in ("elem", "item") and content(x[i + 1:])
+            return False
+
+        if all(nxt(x) for x in tr):
+            return "next.params"
+        got = [acc(x) for x in tr]
+        if all(g is not False for g in got) and any(g is True for g in got) and self._joint_from_slots(e):
+            return "acc.params"
+        return None
+
+    def _joint_from_slots(self, e: ast.AST) -> bool:
+        """every JointActionCall the value is read from was built from the slot list itself"""
+        for n in flows_from(self.p, e, depth=5):
+            if isinstance(n, ast.Call) and callee_name(n) == "JointActionCall" and isinstance(n.func, ast.Name):
+                a = L.arg_of(n, self.repo.find_method("JointActionCall", "__init__"), "actions", 0)
+                if a is None or not same_object(self.p, a, self.slot_ids):
+                    return False
+        return True
 
     def is_nop(self, e: ast.AST) -> bool:
         try:
@@ -2352,6 +2471,13 @@ class Verdict:
         return out
 
     def _atom(self, e: ast.AST, env) -> Optional[Tuple[str, bool]]:
+        if self.flag_param is not None and isinstance(e, ast.Name) and isinstance(e.ctx, ast.Load) and not (env and e.id in env):
+            try:
+                tr = self.p.trace(e)
+            except KeyError:
+                tr = set()
+            if tr and all(x == (f"param:{self.flag_param}",) for x in tr):
+                return "flag", True
         if isinstance(e, ast.Call) and isinstance(e.func, ast.Attribute):
             if e.func.attr == "is_applicable":
                 return "applicable", True
